@@ -100,12 +100,15 @@ class Consent:
         self.tokens: dict[bytes, tuple[bytes, bytes, bytes]] = {}      # hash -> (prev, content_hash, sig)
         self.metadata: dict[bytes, tuple[bytes, bytes, bytes]] = {}    # hash -> (pointer, json, sig)
         self.attested: set[bytes] = set()                              # metadata hashes this node attested
+        self.third_party: set[bytes] = set()     # metadata hashes for which a disclosure carried somebody's attestation
 
     def register(self, attribute_hash: bytes, name: str, key_bin: bytes, md: dict | None, now: float) -> None:
         self.registrations.append((attribute_hash, name, key_bin, None if md is None else dict(md), now))
 
-    def shown(self, metadata_blob: bytes, tokens_blob: bytes) -> None:
+    def shown(self, metadata_blob: bytes, tokens_blob: bytes, attestations_blob: bytes = b"") -> None:
         slen = sig_len(self.candidate_keys[0])
+        for i in range(0, len(attestations_blob) - (32 + slen) + 1, 32 + slen):
+            self.third_party.add(attestations_blob[i:i + 32])
         for h, prev, content, sig in parse_tokens(tokens_blob, slen):
             self.tokens[h] = (prev, content, sig)
         for h, ptr, js, sig in parse_metadata(metadata_blob, slen):
@@ -133,7 +136,12 @@ class Consent:
         """
         verdict = self._judge(metadata_pointer, now)
         if verdict is None and metadata_pointer in self.attested:
-            verdict = ("twice", "this metadata was attested before")
+            if metadata_pointer in self.third_party:
+                verdict = ("twice-with-third-party-attestation",
+                           "this metadata was attested before (a disclosure carried another authority's attestation "
+                           "over the same metadata)")
+            else:
+                verdict = ("twice", "this metadata was attested before")
         self.attested.add(metadata_pointer)
         return verdict
 
